@@ -7,18 +7,18 @@ TB = "trusted: TLC, the L1 transcription (Script.tla/MsSpec.tla/Verify.tla/Polic
 C = {
  "C20": ('translate-pipeline', 'model_checking', 'Subst(ast, f) and KeysPre(ast) of the TLA+ AST model vs. real translate_pk / iter_pk / for_each_key / for_any_key on every enumerated miniscript and its descriptor wrapper, 6 mappings + composition + String->concrete; concrete policies (incl. weighted or, positional thresholds) under 4 mappings vs Subst(P, f) with odds and child order, failure iff the mapping fails on an occurring key, keys()/for_each_key bags, semantic identity translation', '5/C20',
          'TLA+ structural substitution / pre-order key sequence vs. library translation and iteration (Trace_Translate, Trace_PolText)'),
- "C01": ("sat-pipeline", "model_checking", "every satisfaction returned by get_satisfaction[_mall] and plan+satisfy, for every canonical well-typed B miniscript up to the node bound in 4 contexts / 5 wrappers and every relevant asset world, is alpha-abstracted and executed by the TLA+ Script VM under consensus+standardness rules of its output type; bounded-exhaustive", "5/C01",
-         "TLA+ Script VM + Verify.tla judged by TLC on traces of the real satisfier (Trace_Sat); MC_SatSet lemma"),
- "C02": ("sat-pipeline", "model_checking", "every 'no satisfaction' answer over the same domain is confronted with the complete SatSet of MsSpec.tla (itself cross-checked against brute-force VM search by MC_SatSet)", "5/C02",
-         "TLA+ SatSet table vs. real satisfier answers (Trace_Sat); MC_SatSet completeness lemma"),
+ "C01": ("sat-pipeline", "model_checking", "every satisfaction returned by get_satisfaction[_mall] and plan+satisfy, for every canonical well-typed B miniscript up to the node bound in 4 contexts / 5 wrappers and every relevant asset world, is alpha-abstracted and executed by the TLA+ Script VM under consensus+standardness rules of its output type; bounded-exhaustive; plus taproot descriptors with real script trees (1-3 leaves, both 3-leaf shapes, shared and disjoint keys) and key-only outputs: key-path vs script-path spends of get_satisfaction / plan, judged by VerifyInput, Encode(leaf) and SatSet per leaf (trsat pipeline)", "5/C01",
+         "TLA+ Script VM + Verify.tla judged by TLC on traces of the real satisfier (Trace_Sat); MC_SatSet lemma; Trace_TrSat for taproot trees"),
+ "C02": ("sat-pipeline", "model_checking", "every 'no satisfaction' answer over the same domain is confronted with the complete SatSet of MsSpec.tla (itself cross-checked against brute-force VM search by MC_SatSet); plus taproot descriptors with real script trees (1-3 leaves, both 3-leaf shapes, shared and disjoint keys) and key-only outputs: key-path vs script-path spends of get_satisfaction / plan, judged by VerifyInput, Encode(leaf) and SatSet per leaf (trsat pipeline)", "5/C02",
+         "TLA+ SatSet table vs. real satisfier answers (Trace_Sat); MC_SatSet completeness lemma; Trace_TrSat for taproot trees"),
  "C08": ("compile-pipeline", "model_checking", "every successful compilation (15 targets) of every enumerated concrete policy is judged semantically: truth table of the output's SatSet-spendability over all asset worlds equals the policy's, output is B / signed / non-malleable by the specification's tables, obeys the target context's sanity rules and re-parses", "5/C08",
          "TLA+ SatSet/Spendable truth tables + SpecType + Validation predicates on compiler outputs (Trace_Compile)"),
- "C09": ("sat-pipeline", "model_checking", "every static figure (script size, witness count/size, scriptSig size, max weight, op count, plan sizes) is compared with the value measured on each produced satisfaction by the VM and the size model; limits clause checked on VM depth/op count", "5/C09",
-         "TLA+ VM measurement + size model vs. library figures (Trace_Sat)"),
+ "C09": ("sat-pipeline", "model_checking", "every static figure (script size, witness count/size, scriptSig size, max weight, op count, plan sizes) is compared with the value measured on each produced satisfaction by the VM and the size model; limits clause checked on VM depth/op count; max_weight_to_satisfy and plan sizes of multi-leaf taproot descriptors vs every spend built (trsat pipeline)", "5/C09",
+         "TLA+ VM measurement + size model vs. library figures (Trace_Sat); Trace_TrSat"),
  "C03": ("nonmall-pipeline", "model_checking", "every non-malleable satisfaction the library returns for a sane descriptor is attacked by exhaustive adversarial witness search (all stacks up to |w|+1 over the third-party alphabet) executed in the TLA+ VM under standardness rules; any accepted alternative is a violation; bounds in evidence", "5/C03",
          "exhaustive bounded adversary search in the TLA+ Script VM against real non-malleable witnesses (Trace_NonMall)"),
- "C04": ("ast-pipeline", "model_checking", "alpha(encode(ms)) = Encode(ms) of MsSpec.tla, script_size = ByteLen, decode(encode) byte-identical / same type / same spendability, for all enumerated ASTs in 4 contexts", "5/C04",
-         "TLA+ Encode/ByteLen templates vs. real encoder/decoder (Trace_Ast)"),
+ "C04": ("ast-pipeline", "model_checking", "alpha(encode(ms)) = Encode(ms) of MsSpec.tla, script_size = ByteLen, decode(encode) byte-identical / same type / same spendability, for all enumerated ASTs in 4 contexts; reverse direction: every instruction-level mutation of every real encoding offered to decode_consensus, accepted ones must re-encode to the offered bytes and equal Encode(decoded AST)", "5/C04",
+         "TLA+ Encode/ByteLen templates vs. real encoder/decoder (Trace_Ast); decoder judged on mutated encodings"),
  "C05": ("types-pipeline", "model_checking", "every type rule evaluated by the real library over explicit child types (all 960 values of the last child per row) compared cell-by-cell with the specification tables in MsSpec.tla; exhaustive over reachable child types in thorough; plus Miniscript::ty of every enumerated AST", "5/C05",
          "TLA+ SpecType tables vs. library rule functions on the complete finite domain (Trace_Types, Trace_Ast)"),
  "C06": ("typesound-pipeline", "model_checking", "for every well-typed fragment up to the node bound the real encoded script is executed by the TLA+ VM from every input stack up to the length bound over an adversarial alphabet; z/o/n/u/d/f/s and B/V/K/W shape predictions of the real Miniscript::ty are checked on the runs; MC_TypeSound proves the same for the specification's own tables", "5/C06",
@@ -43,8 +43,8 @@ C = {
          "TLA+ VerifyInput on plan completions under exact and weakened lock environments (Trace_Plan)"),
  "C18": ("policy-pipeline", "model_checking", "normalized/sorted/at_age/at_lock_time/entails/minimum_n_keys/n_keys/Concrete::lift/check_timelocks of the real library on an exhaustively enumerated policy domain, each answer judged by TLC against atom truth tables (all assignments) of PolicyAtoms.tla; entails on all ordered pairs of the small set", "5/C18",
          "TLA+ truth-table semantics (PolicyAtoms.tla) vs. library policy transformations (Trace_Policy)"),
- "C19": ("pairs-pipeline", "model_checking", "full ordered pair matrix of ==, cmp, hash and to_string over every well-typed miniscript up to the node bound plus near-miss families, in explicit and sugared text, 4 contexts; every cell judged against abstract AST identity; ordering checked to be a strict total order (distinct scores)", "5/C19",
-         "structural identity of abstract ASTs (TLA+ Gen_Pairs) vs. library Eq/Ord/Hash matrix (Trace_Eq)"),
+ "C19": ("pairs-pipeline", "model_checking", "full ordered pair matrix of ==, cmp, hash and to_string over every well-typed miniscript up to the node bound plus near-miss families, in explicit and sugared text, 4 contexts; every cell judged against abstract AST identity; ordering checked to be a strict total order (distinct scores); the same full matrix over 54 concrete policies (incl. odds), 39 semantic policies and 117 descriptors (wrappers, key-only forms, taproot trees differing in shape/order/internal key) (Gen_Pairs2)", "5/C19",
+         "structural identity of abstract ASTs (TLA+ Gen_Pairs) vs. library Eq/Ord/Hash matrix (Trace_Eq); Gen_Pairs2 item lists for policies and descriptors"),
 }
 ENG = {
  "compile-pipeline": ("bin/check (run_compile)", "TLC Gen_Compile -> msverif compile -> TLC Trace_Compile"),
@@ -58,8 +58,8 @@ ENG = {
  "plan-pipeline": ("bin/check (run_plan)", "TLC Gen_Sat -> msverif plan (Assets, plan/plan_mall, lock variants) -> TLC Trace_Plan"),
  "interp-pipeline": ("bin/check (run_interp)", "TLC Gen_Sat -> msverif interp (library satisfactions + rendered mutations) -> TLC Trace_Interp"),
  "typesound-pipeline": ("bin/check (run_typesound)", "TLC Gen_Ast -> msverif ast -> TLC Trace_TypeSound + MC_TypeSound"),
- "pairs-pipeline": ("bin/pipe_generic.py", "TLC Gen_Pairs -> msverif pairs -> TLC Trace_Eq"),
- "sat-pipeline": ("bin/pipe_sat.py", "TLC Gen_Sat -> msverif sat (real library + alpha) -> TLC Trace_Sat + MC_SatSet"),
+ "pairs-pipeline": ("bin/pipe_generic.py", "TLC Gen_Pairs / Gen_Pairs2 -> msverif pairs -> TLC Trace_Eq"),
+ "sat-pipeline": ("bin/pipe_sat.py", "TLC Gen_Sat -> msverif sat (real library + alpha) -> TLC Trace_Sat + MC_SatSet; TLC Gen_TrSat -> msverif trsat -> TLC Trace_TrSat"),
  "ast-pipeline": ("bin/pipe_ast.py", "TLC Gen_Ast -> msverif ast -> TLC Trace_Ast; for C10 also TLC MC_Checksum + Gen_Cksum -> msverif cksum -> TLC Trace_Cksum and Gen_Compile -> msverif poltext -> TLC Trace_PolText"),
  "types-pipeline": ("bin/pipe_types.py", "TLC Gen_Types -> msverif types -> TLC Trace_Types (+ MC_Reach)"),
 }
